@@ -39,7 +39,7 @@ using namespace nodesim;
 
 namespace {
 
-enum { K_BATCH = 100, K_FLUSH, K_RESTART, K_PRUNE, K_REDELIVER, K_DAMAGE, K_RECONNECT, K_WRITEFAULT, K_READALL };
+enum { K_BATCH = 100, K_FLUSH, K_RESTART, K_PRUNE, K_REDELIVER, K_DAMAGE, K_RECONNECT, K_WRITEFAULT, K_READALL, K_ENUMERATE };
 
 // offset classes of a read-side fault
 enum { R_MAGIC = 0, R_SIZE, R_HEADER, R_TX, R_UNDO_BODY, R_UNDO_CHECKSUM, R_UNDO_FRAMING, R_ANYWHERE, R_NCLASSES };
@@ -51,7 +51,7 @@ const simfs::FaultKind kWriteFaultKinds[] = {simfs::FaultKind::ENOSPC_WRITE, sim
 
 std::string Describe(const Op& op)
 {
-    char b[256];
+    char b[420];
     switch (op.kind) {
     case K_BATCH: {
         static const char* arrival[] = {"in-order", "reversed", "shuffled", "odd-then-even"};
@@ -76,6 +76,9 @@ std::string Describe(const Op& op)
                  (long)op.arg(3), (long)op.arg(2), (long)op.arg(4), op.arg(6) ? "flush" : "kill");
         break;
     case K_READALL: snprintf(b, sizeof b, "read back every index entry (part seed %ld)", (long)op.arg(0)); break;
+    case K_ENUMERATE:
+        snprintf(b, sizeof b, "FAULT enumerate record#%ld: one bit flip (bit seed %ld) at EVERY byte of magic, size field, header, undo framing and undo checksum, at %ld spread tx bytes and undo body bytes, truncation at every field boundary, every overlapping sector zeroed", (long)op.arg(0), (long)op.arg(1), (long)op.arg(2));
+        break;
     default: snprintf(b, sizeof b, "?");
     }
     return b;
@@ -141,6 +144,12 @@ Plan Gen(uint64_t seed, Tier tier)
         case 4: op.kind = K_REDELIVER; op.a = {(int64_t)rng.below(100000), 1}; break;
         default: op.kind = K_READALL; op.a = {(int64_t)(rng.next() >> 24)}; break;
         }
+        p.ops.push_back(op);
+    }
+    if (faults && rng.chance(thorough ? 3 : 1, 3)) {
+        Op op;
+        op.kind = K_ENUMERATE;
+        op.a = {(int64_t)rng.below(100000), (int64_t)rng.below(8), thorough ? 96 : 32};
         p.ops.push_back(op);
     }
     if (faults) {
@@ -730,7 +739,6 @@ struct Store {
     void StartOrFail(const char* where)
     {
         if (!cs.node->Start()) {
-            if (const char* keep = getenv("VERIF_KEEP")) { std::string cmd = "cp -r " + dir + " " + keep; int rc = system(cmd.c_str()); (void)rc; }
             ctx.failf("restart-failed", "%s: %s", where, cs.node->last_error.c_str());
         }
         NoteTip();
@@ -769,6 +777,113 @@ struct Store {
         if (offline) StartOrFail("after repairing the damage");
         ClearNodeErrors();
         ReadBack("after repair", nullptr, (uint64_t)op.arg(3) + 1, /*full=*/false, {t.block}, 2);
+    }
+
+    /** Every framing/header/checksum byte of one record (and a spread of body bytes), every field boundary, every overlapping sector. */
+    void OpEnumerate(const Op& op)
+    {
+        if (!ctx.knob("faults", 1)) return;
+        Target t0 = Locate((uint64_t)op.arg(0), R_MAGIC, 0, nullptr);
+        if (!t0.ok) return;
+        const int b = t0.block;
+        const size_t spread = (size_t)std::clamp<int64_t>(op.arg(2), 4, 256);
+        uint64_t nfaults = 0;
+        for (int pass = 0; pass < 2; ++pass) {
+            const bool undo = pass == 1;
+            size_t start, len_framing = 8, len_fixed, len_body, len_tail;
+            int nfile;
+            {
+                LOCK(cs_main);
+                const CBlockIndex* pi = bm().LookupBlockIndex(cs.ref->blocks[b].hash);
+                if (!pi || !(pi->nStatus & (undo ? BLOCK_HAVE_UNDO : BLOCK_HAVE_DATA))) continue;
+                nfile = pi->nFile;
+                start = (undo ? pi->nUndoPos : pi->nDataPos) - 8;
+            }
+            Damage d;
+            d.undo_file = undo;
+            d.nfile = nfile;
+            d.path = FilePath(undo, nfile);
+            if (!LoadFile(d.path, d.before) || d.before.size() < start + 8) continue;
+            if (undo) {
+                len_fixed = 0;
+                len_body = PlainLE32(d.before, start + 4);
+                len_tail = 32;
+            } else {
+                len_fixed = 80;
+                len_body = BlockBytes(b).size() - 80;
+                len_tail = 0;
+            }
+            const size_t total = len_framing + len_fixed + len_body + len_tail;
+            if (d.before.size() < start + total) continue;
+            // neighbours in the same file are read as well: damage to one record must not show in another
+            std::vector<int> group{b};
+            {
+                LOCK(cs_main);
+                int prev = -1, next = -1;
+                size_t prev_pos = 0, next_pos = SIZE_MAX;
+                for (int i = 0; i < (int)cs.ref->blocks.size(); ++i) {
+                    const CBlockIndex* pi = bm().LookupBlockIndex(cs.ref->blocks[i].hash);
+                    if (i == b || !pi || pi->nFile != nfile || !(pi->nStatus & (undo ? BLOCK_HAVE_UNDO : BLOCK_HAVE_DATA))) continue;
+                    size_t p = undo ? pi->nUndoPos : pi->nDataPos;
+                    if (p < start + 8 && p >= prev_pos) { prev = i; prev_pos = p; }
+                    if (p > start + 8 && p < next_pos) { next = i; next_pos = p; }
+                }
+                if (prev >= 0) group.push_back(prev);
+                if (next >= 0) group.push_back(next);
+            }
+            std::vector<size_t> offs;
+            for (size_t k = 0; k < len_framing + len_fixed; ++k) offs.push_back(k);
+            for (size_t k = 0; k < spread && len_body > 0; ++k) offs.push_back(len_framing + len_fixed + (size_t)((unsigned __int128)k * len_body / spread));
+            for (size_t k = 0; k < std::min<size_t>(8, len_body); ++k) offs.push_back(len_framing + len_fixed + len_body - 1 - k);
+            for (size_t k = 0; k < len_tail; ++k) offs.push_back(len_framing + len_fixed + len_body + k);
+            std::sort(offs.begin(), offs.end());
+            offs.erase(std::unique(offs.begin(), offs.end()), offs.end());
+            auto evaluate = [&](const char* where) {
+                std::map<std::pair<bool, int>, Bytes> files;
+                for (int i : group) CheckEntry(i, &d, (uint64_t)op.arg(1), files, where);
+                ++nfaults;
+            };
+            int fd = ::open(d.path.c_str(), O_RDWR);
+            if (fd < 0) ctx.failf("sim-cannot-write-damage", "%s", d.path.c_str());
+            d.after = d.before;
+            for (size_t k : offs) {
+                const size_t off = start + k;
+                d.after[off] ^= (unsigned char)(1u << ((op.arg(1) + k) % 8));
+                if (::pwrite(fd, &d.after[off], 1, (off_t)off) != 1) ctx.failf("sim-cannot-write-damage", "%s", d.path.c_str());
+                evaluate("enumerated bit flip");
+                d.after[off] = d.before[off];
+                if (::pwrite(fd, &d.after[off], 1, (off_t)off) != 1) ctx.failf("sim-cannot-repair-damage", "%s", d.path.c_str());
+            }
+            ::close(fd);
+            ctx.fault("stored_bit_flip", offs.size());
+            // truncation at every field boundary (and inside the fields)
+            std::vector<size_t> cuts{0, 2, 4, 6, 8};
+            if (!undo) { cuts.push_back(8 + 40); cuts.push_back(8 + 80); }
+            cuts.push_back(len_framing + len_fixed + len_body / 2);
+            cuts.push_back(len_framing + len_fixed + len_body);
+            cuts.push_back(total - 1);
+            for (size_t c : cuts) {
+                if (c >= total) continue;
+                d.after.assign(d.before.begin(), d.before.begin() + start + c);
+                if (!StoreFile(d.path, d.after)) ctx.failf("sim-cannot-write-damage", "%s", d.path.c_str());
+                evaluate("enumerated truncation");
+                ctx.fault("stored_file_truncated");
+            }
+            // every 512-byte sector that overlaps the record
+            for (size_t sct = start / 512; sct * 512 < start + total && sct < start / 512 + 6; ++sct) {
+                d.after = d.before;
+                for (size_t k = sct * 512; k < (sct + 1) * 512 && k < d.after.size(); ++k) d.after[k] = 0;
+                if (!StoreFile(d.path, d.after)) ctx.failf("sim-cannot-write-damage", "%s", d.path.c_str());
+                evaluate("enumerated zeroed sector");
+                ctx.fault("stored_sector_zeroed");
+            }
+            Repair(d);
+            ctx.probe(undo ? "undo_record_enumerated" : "block_record_enumerated");
+        }
+        ctx.evf("enumerate #%d: %lu faults", b, (unsigned long)nfaults);
+        ctx.probe("enumerated_faults", nfaults);
+        ReadBack("after the enumeration", nullptr, (uint64_t)op.arg(1), /*full=*/false, {b}, 2);
+        if (nfaults) ctx.nontrivial = true;
     }
 
     /** Clause C: a block whose stored bytes were corrupted is never connected. */
@@ -1251,12 +1366,13 @@ struct Store {
                 break;
             }
             case K_DAMAGE: OpDamage(op); break;
+            case K_ENUMERATE: OpEnumerate(op); break;
             case K_RECONNECT: OpReconnect(op); break;
             case K_WRITEFAULT: OpWriteFault(op); break;
             case K_READALL: ReadBack("explicit read-back", nullptr, (uint64_t)op.arg(0), /*full=*/true); break;
             default: break;
             }
-            if (op.kind != K_WRITEFAULT && op.kind != K_DAMAGE && op.kind != K_RECONNECT) FailIfFatal(Describe(op).c_str());
+            if (op.kind != K_WRITEFAULT && op.kind != K_DAMAGE && op.kind != K_RECONNECT && op.kind != K_ENUMERATE) FailIfFatal(Describe(op).c_str());
             ctx.fingerprint(Fingerprint());
             if (dead) break;
         }
